@@ -163,7 +163,10 @@ class ClosAdapter(Adapter):
             w['fam'] = l['fam']
             return {}
         if act == 'SetSigma':
-            C.sigma = self.c.dist(l['sigma2'])
+            sg = self.c.dist(l['sigma2'])
+            # the contact distance as a float, a numpy scalar or (when integral) an int
+            style = l['sigma2'] % 3
+            C.sigma = np.float64(sg) if style == 1 else (int(sg) if (style == 2 and float(sg) == int(sg)) else sg)
             return {}
         if act == 'Calculate':
             return self.calculate(w, l)
